@@ -25,8 +25,9 @@ Record packet := mkP {
 Definition set_ssrc (p : packet) (s : N) : packet :=
   mkP (p_seq p) (p_ts p) (p_mk p) (p_pt p) s (p_pay p).
 
-(* static configuration: queue capacity and, per media, its formats as (payload type, local SSRC) *)
-Record cfg := mkCfg { c_Q : N; c_medias : list (list (N * N)) }.
+(* static configuration: queue capacity, size of the UDP receiver's reorder buffer (rtpreceiver.BufferSize)
+   and, per media, its formats as (payload type, local SSRC) *)
+Record cfg := mkCfg { c_Q : N; c_B : N; c_medias : list (list (N * N)) }.
 
 (* formats[pt]: a Go map filled in description order, so the last format with that payload type wins *)
 Fixpoint find_fmt_aux (fs : list (N * N)) (pt i : N) (acc : option (N * N)) : option (N * N) :=
@@ -70,21 +71,39 @@ Record rstate := mkR {
   r_con : bool;               (* client side accepts media (allowInterleavedFrames / listeners running) *)
   r_deliv : list dentry;      (* callbacks invoked, oldest first *)
   r_hist : list N;            (* ghost: write indices accepted by the queue, oldest first *)
-  r_lost : list N }.          (* ghost: write indices removed without a callback *)
+  r_lost : list N;            (* ghost: write indices removed without a callback *)
+  r_rx : list (N * N * (N * N)); (* UDP receiver per (media, format): (last delivered, consecutive late arrivals) *)
+  r_resets : N }.             (* ghost: how often a UDP receiver gave up its position ("stream has been resetted") *)
 
 Record state := mkS { s_written : list (N * N * packet); s_readers : list rstate }.
 
 Definition new_reader (tcp : bool) (setup : list (N * N)) : rstate :=
-  mkR tcp setup PhIdle false WNone [] [] 0 0 [] false [] [] [].
+  mkR tcp setup PhIdle false WNone [] [] 0 0 [] false [] [] [] [] 0.
 
 (* --- field updates --- *)
 Definition upd_ctl (r : rstate) (ph : phase) (a : bool) (w : wst) (con : bool) : rstate :=
-  mkR (r_tcp r) (r_setup r) ph a w (r_queue r) (r_ring r) (r_rp r) (r_wp r) (r_wire r) con (r_deliv r) (r_hist r) (r_lost r).
+  mkR (r_tcp r) (r_setup r) ph a w (r_queue r) (r_ring r) (r_rp r) (r_wp r) (r_wire r) con (r_deliv r) (r_hist r) (r_lost r)
+      (r_rx r) (r_resets r).
 Definition upd_data (r : rstate) (q wi : list item) (dl : list dentry) (h l : list N) : rstate :=
-  mkR (r_tcp r) (r_setup r) (r_ph r) (r_active r) (r_w r) q (r_ring r) (r_rp r) (r_wp r) wi (r_con r) dl h l.
+  mkR (r_tcp r) (r_setup r) (r_ph r) (r_active r) (r_w r) q (r_ring r) (r_rp r) (r_wp r) wi (r_con r) dl h l
+      (r_rx r) (r_resets r).
 Definition upd_ring (r : rstate) (ring : list (option item)) (rp wp : N) : rstate :=
   mkR (r_tcp r) (r_setup r) (r_ph r) (r_active r) (r_w r) (r_queue r) ring rp wp (r_wire r) (r_con r)
-      (r_deliv r) (r_hist r) (r_lost r).
+      (r_deliv r) (r_hist r) (r_lost r) (r_rx r) (r_resets r).
+Definition upd_rx (r : rstate) (rx : list (N * N * (N * N))) (resets : N) : rstate :=
+  mkR (r_tcp r) (r_setup r) (r_ph r) (r_active r) (r_w r) (r_queue r) (r_ring r) (r_rp r) (r_wp r) (r_wire r)
+      (r_con r) (r_deliv r) (r_hist r) (r_lost r) rx resets.
+
+Fixpoint rx_get (rx : list (N * N * (N * N))) (m f : N) : option (N * N) :=
+  match rx with
+  | [] => None
+  | (m', f', v) :: t => if (m' =? m) && (f' =? f) then Some v else rx_get t m f
+  end.
+Fixpoint rx_set (rx : list (N * N * (N * N))) (m f : N) (v : N * N) : list (N * N * (N * N)) :=
+  match rx with
+  | [] => [(m, f, v)]
+  | (m', f', v') :: t => if (m' =? m) && (f' =? f) then (m, f, v) :: t else (m', f', v') :: rx_set t m f v
+  end.
 
 (* the closures sitting in the slots of a ring *)
 Fixpoint ritems (ring : list (option item)) : list item :=
@@ -216,12 +235,14 @@ Fixpoint take_nth {A} (i : N) (l : list A) : option (A * list A) :=
   end.
 
 Definition same_mf (m f : N) (d : dentry) : bool := (d_m d =? m) && (d_f d =? f).
-(* the receiver's in-order filter: only a packet newer than everything delivered for that format *)
-Definition newer (dl : list dentry) (m f idx : N) : bool :=
-  forallb (fun d => negb (same_mf m f d) || (d_idx d <? idx)) dl.
 
 (* one unit leaves the transport at the reading end.  Returns the new reader state and the callback
-   that was invoked, if any. *)
+   that was invoked, if any.
+   TCP: the head of the byte stream; the receiver hands every packet on (reliable transport).
+   UDP: any datagram (reordering); rtpreceiver.reorder in abstract form - the write index stands for the
+   sequence number, and the choice of the datagram stands for its reorder buffer: a packet newer than the
+   last delivered one of that format is delivered; an older one is dropped, unless it is the (B+1)-th
+   older one in a row, in which case the receiver assumes that the stream was reset and restarts from it. *)
 Definition r_arrive (c : cfg) (i : N) (r : rstate) : option (rstate * option dentry) :=
   if negb (r_con r) then None else
   if r_tcp r && negb (i =? 0) then None else
@@ -238,10 +259,21 @@ Definition r_arrive (c : cfg) (i : N) (r : rstate) : option (rstate * option den
               match find_fmt fs (p_pt (i_pkt x)) with
               | None => Some drop
               | Some (f, _) =>
-                  if r_tcp r || newer (r_deliv r) m f (i_idx x) then
+                  if r_tcp r then
                     let d := mkD m f (i_idx x) (i_late x) (i_pkt x) in
                     Some (upd_data r (r_queue r) wi (r_deliv r ++ [d]) (r_hist r) (r_lost r), Some d)
-                  else Some drop
+                  else
+                    let deliver (resets : N) :=
+                      let d := mkD m f (i_idx x) (negb (resets =? 0)) (i_pkt x) in
+                      Some (upd_rx (upd_data r (r_queue r) wi (r_deliv r ++ [d]) (r_hist r) (r_lost r))
+                                   (rx_set (r_rx r) m f (i_idx x, 0)) resets, Some d) in
+                    match rx_get (r_rx r) m f with
+                    | None => deliver (r_resets r)
+                    | Some (last, neg) =>
+                        if last <? i_idx x then deliver (r_resets r)
+                        else if c_B c <? neg + 1 then deliver (r_resets r + 1)
+                        else Some (upd_rx (fst drop) (rx_set (r_rx r) m f (last, neg + 1)) (r_resets r), None)
+                    end
               end
           end
       end
@@ -408,7 +440,7 @@ Definition announce (c : cfg) (m : N) : option N :=
 Definition init (rs : list rstate) : state := mkS [] rs.
 
 (* ================= wire protocol =================
-   case 1:  Q  nmedias {nformats {pt ssrc}}  nreaders {tcp nsetup {m chan has ssrc}}  steps...
+   case 1:  Q  B  nmedias {nformats {pt ssrc}}  nreaders {tcp nsetup {m chan has ssrc}}  steps...
             (has: 1 = the SETUP response carried ssrc, 0 = it carried none, 2 = not applicable)
      steps:  1 m seq ts mk pt ssrc npay pay.. nfull full..        write
              2 k r                                                 control step k (0..11) on reader r
@@ -580,14 +612,14 @@ Fixpoint check_announces (c : cfg) (rs : list (bool * list (N * N * (N * N)))) (
 
 Definition run (cs : list N) : list N :=
   match cs with
-  | 1 :: q :: nm :: t =>
+  | 1 :: q :: b :: nm :: t =>
       match get_medias t nm t with
       | Some (ms, nr :: t') =>
           match get_readers t' nr t' with
           | Some (rs, t'') =>
               match get_steps t'' t'' with
               | Some steps =>
-                  let c := mkCfg q ms in
+                  let c := mkCfg q b ms in
                   match check_announces c rs 0 with
                   | Some (r, j) => [2; r; j]
                   | None =>
@@ -605,7 +637,7 @@ Definition run (cs : list N) : list N :=
   | 2 :: q :: nm :: t =>
       match get_medias t nm t with
       | Some (ms, [m; pt]) =>
-          match write (mkCfg q ms) (init []) m (mkP 0 0 false pt 0 []) with
+          match write (mkCfg q 0 ms) (init []) m (mkP 0 0 false pt 0 []) with
           | WPanic => [77]
           | WOk _ _ => [1]
           end
